@@ -166,9 +166,13 @@ def run_case(c, stats):
             # the returned automaton belongs to the caller: edited, and the grammar converted again
             sts = sorted(p.states, key=lambda x: repr(x.value))
             zs = sorted(p.stack_symbols, key=lambda x: repr(x.value))
-            if sts and zs:
-                call(p.add_transition, sts[0], "zz_edit", zs[0], sts[0], [])
+            ins = sorted(p.input_symbols, key=lambda x: repr(x.value))
+            if sts and zs and ins:
+                for z in zs:
+                    call(p.add_transition, sts[0], ins[0], z, sts[0], [])      # every stack symbol may be read away
                 call(p.add_final_state, sts[0])
+                call(g.to_pda)
+            elif sts and zs:
                 call(g.to_pda)
         return nt
     p = gpda.build(c["p"])
